@@ -18,7 +18,7 @@ func init() {
 			"R1 the extracted table equals the GoogleSQL table (levels, tokens -> operator constants, associativity, right operand one level tighter, prefix operators recurse into their own level, comparison family non-associative with operands and BETWEEN bounds at the bitwise-or level). " +
 			"R2 exprPrec (the printer's table, read from its type/constant switch) is order-isomorphic to the parser levels for every operator, and for every paren(p, x.F) call the types/operators that can flow into x.F (VALUE analysis of the parser) have exprPrec <= p, so SQL() never adds a parenthesis to a parser-built tree. " +
 			"R3 every ParenExpr wraps exactly the value returned by parseExpr and the function consuming '(' expr ')' never returns the inner expression unwrapped.",
-		Rules: []ruleFn{ruleC07R1, ruleC07R2, ruleC07R3, ruleC07R4},
+		Rules: []ruleFn{ruleC07R1, ruleC07R2, ruleC07R3, ruleC07R4, ruleC11R4},
 	})
 }
 
